@@ -185,8 +185,8 @@ func init() {
 			fresh, _ := pipeline.Parse(strings.NewReader(sb.String()))
 			if r%2 == 1 {
 				// values only an API user builds: a matrix dimension whose value list is nil
-				c06nilDims(shared.Steps)
-				c06nilDims(fresh.Steps)
+				c06nilDims(shared.Steps, false)
+				c06nilDims(fresh.Steps, false)
 			}
 			freshBefore := c19snapshot(*fresh)
 			signedBefore := c19snapshot(*shared)
